@@ -785,6 +785,14 @@ func (x *Exec) branch(st *State, fr *Frame, b *ssa.BasicBlock, c *Term) {
 		return
 	}
 	prune := x.npaths > 48
+	if x.fc != nil {
+		if _, off := x.fc.Flags["noprune"]; off {
+			prune = false // "flag noprune": no feasibility probes (cheap paths, many independent branches)
+		}
+		if _, on := x.fc.Flags["prune"]; on {
+			prune = true // "flag prune": probe every branch (functions whose cases exclude most branches)
+		}
+	}
 	st2 := st.clone()
 	st.assume(c)
 	st.trace = append(st.trace, fmt.Sprintf("b%d:T", b.Index))
